@@ -711,6 +711,22 @@ func (w *world) checkForeign(before map[string]string) {
 	}
 }
 
+// checkViewOwned: the hypothesis of the foreign-untouched theorems, evaluated on the real code:
+// every name Felix wants or believes to be in the dataplane is a name it owns.
+func (w *world) checkViewOwned() {
+	st := w.ips.VerifState()
+	for n := range st.Desired {
+		if !w.owned(n) {
+			w.h.OracleFail("desired-name-not-owned", "a desired IP set name is outside Felix's name space", map[string]any{"set": n, "op": w.opDesc})
+		}
+	}
+	for n := range st.Dataplane {
+		if !w.owned(n) {
+			w.h.OracleFail("view-name-not-owned", "Felix's dataplane view contains a set name it does not own", map[string]any{"set": n, "op": w.opDesc})
+		}
+	}
+}
+
 func memberSet(l []string) map[string]bool {
 	m := map[string]bool{}
 	for _, x := range l {
@@ -836,6 +852,7 @@ func exec(w *world, op string) (string, string) {
 			w.dead = true
 			return "panic", hinted
 		}
+		w.checkViewOwned()
 		if w.pendingFull || w.qreq {
 			w.fresh = true
 			w.delFailedSince = false
@@ -866,6 +883,7 @@ func exec(w *world, op string) (string, string) {
 			w.dead = true
 			return "panic", hinted
 		}
+		w.checkViewOwned()
 		if w.fresh && !resched && !w.delFailedSince {
 			want := w.wanted()
 			for n := range w.K {
